@@ -214,10 +214,10 @@ def run_case(case, R):
             R.check(after[0] == before[0], "untouched", site + ":bytes", lambda: "%s: destination content changed (%d -> %d bytes)" % (what, len(before[0]), len(after[0])))
             R.check(after[1:] == before[1:], "untouched", site + ":stat", lambda: "%s: destination inode/mtime/size changed" % what)
             R.check(os.path.abspath(dest) not in exc_info["writes"], "untouched", site + ":opened-for-writing", lambda: "%s: destination was opened for writing" % what)
-            leftovers = [n for n in os.listdir(d) if n not in ("config." + fmt, "key")]
+            leftovers = [n for n in os.listdir(d) if n not in ("config." + fmt, "key", "key-blocker")]
             R.check(not leftovers, "untouched", site + ":leftovers", lambda: "%s: stray files left next to the destination: %r" % (what, leftovers))
 
-        def failing_save(site, what, action, must_raise=True):
+        def failing_save(site, what, action, must_raise=True, retry=False):
             info = {"writes": set()}
             with sandbox.Recorder() as rec:
                 try:
@@ -231,6 +231,18 @@ def run_case(case, R):
                     R.fail("must-raise", site, "%s: save returned normally" % what)
                 return False
             expect_untouched(site, what, info)
+            if retry:
+                # a failed attempt must not leave state behind that lets the very same save 'succeed' next time
+                with sandbox.Recorder() as rec2:
+                    try:
+                        action()
+                        again = None
+                    except BaseException as exc:
+                        again = exc
+                if again is None:
+                    R.fail("must-raise", site + ":retry", "%s: the retry of the failed save returned normally" % what)
+                else:
+                    expect_untouched(site + ":retry", what + " (retry)", {"writes": rec2.paths(writing=True)})
             return True
 
         # ---- counting pass ------------------------------------------------------------------------------------
@@ -287,13 +299,22 @@ def run_case(case, R):
             except Exception:
                 pass
         if any(l.startswith("keyfile") for l in labels):
+            # the key file can be neither read nor created (its directory is a regular file)
+            blocker = os.path.join(d, "key-blocker")
+            cfg._key_filename = os.path.join(blocker, "k.key")
+            with open(blocker, "wb") as fp:
+                fp.write(b"x")
+            R.label("natural:key-uncreatable")
+            failing_save("natural:key-uncreatable", "key file can be neither read nor created", lambda: cfg.save(dest, fmt), retry=True)
+            os.unlink(blocker)
+            cfg._key_filename = keyfile
             with open(keyfile, "rb") as fp:
                 good = fp.read()
             with open(keyfile, "wb") as fp:
                 fp.write(b"short")
             R.label("natural:bad-keyfile")
             # a fresh configuration object: key objects of cfg may legitimately hold nothing between saves anyway
-            failing_save("natural:bad-keyfile", "malformed key file", lambda: cfg.save(dest, fmt))
+            failing_save("natural:bad-keyfile", "malformed key file", lambda: cfg.save(dest, fmt), retry=True)
             with open(keyfile, "wb") as fp:
                 fp.write(good)
 
